@@ -47,6 +47,7 @@ def check(res):
     v = View(res)
     if res.aborted:
         return out
+    refused = set()
     for ii, inv in enumerate(v.invocations):
         if not inv.calls or inv.calls[-1].end is None or inv.final_state != "idle":
             continue
@@ -91,6 +92,14 @@ def check(res):
         end = inv.calls[-1].end
         for d, subs in (end.d.get("subs") or {}).items():
             if "RE.monitor" in subs:
+                attempts = [e for e in per.get(d, []) if e.d["method"] == "clear_sub" and e.d.get("cb") == "RE.monitor"]
+                if d in refused or (len(attempts) >= 2 and all(e.d.get("fault") == "raise" for e in attempts)):
+                    # the device refused every attempt (at least two: the engine retried) to remove the
+                    # subscription: nothing more the engine can do; its callback ignores later updates (C01).
+                    # The dead entry stays in the device's table for the following calls too.
+                    refused.add(d)
+                    res.sim.probe("device-refused-every-clear_sub")
+                    continue
                 out.append(V("monitor-subscription-left", f"{d} still has an engine monitor callback at idle", dev=d))
     # (e) per-call subscribers get nothing from the following call
     user_calls = [c for c in v.calls if c.api == "call"]
